@@ -13,6 +13,14 @@ impl TranspositionTable {
     }
 
     pub fn store(&mut self, hash_key: u64, eval: i32, best_move: Option<Move>, depth: u8, bounds: Bounds) {
+        #[cfg(flounder_verif)]
+        crate::verif_seam::observe(crate::verif_seam::Event::TtStore {
+            key: hash_key,
+            eval,
+            mv: best_move.map(|m| [m.from, m.to, m.piece_type.index() as u8, m.move_type as u8]),
+            depth,
+            bound: bounds as u8,
+        });
         let entry = Entry {
             hash_key,
             eval,
@@ -31,6 +39,8 @@ impl TranspositionTable {
     }
 
     pub fn retrieve(&self, key: u64) -> Option<&Entry> {
+        #[cfg(flounder_verif)]
+        crate::verif_seam::observe(crate::verif_seam::Event::TtRetrieve { key });
         let entry = self.table.get(&key);
         if entry.is_some() && entry.unwrap().hash_key == key {
             return entry;
